@@ -82,6 +82,14 @@ def inputs(chk):
             t = b"\n".join(gen_doc(rng, kind)[0] for _ in range(rng.randrange(1, 4)))
             out.append(("tindex", [kind.encode()], t))
             out.append(("tindex", [kind.encode()], gen.mutate(rng, t, NOISE)))
+    # every name of a Go field lying inside a struct-typed field of the document types, as an unknown field of a document
+    from props import C10 as _c10
+    for kind in ("dsc", "changes", "deb_control"):
+        for name in _c10.NESTED.get(kind, []):
+            out.append(("tdoc", [kind.encode()], gen_doc(rng, kind)[0] + name + b": " + rng.choice([b"x", b"1", b"libc6 (>= 2)"]) + b"\n"))
+    for kind in ("binary_index", "source_index"):
+        for name in _c10.NESTED.get(kind, []):
+            out.append(("tindex", [kind.encode()], gen_doc(rng, kind)[0] + name + b": " + rng.choice([b"x", b"1", b"libc6 (>= 2)"]) + b"\n"))
     for _ in range(n // 3):
         t = gen_doc(rng, "source_par")[0] + b"\n" + gen_doc(rng, "binary_par")[0]
         out.append(("tcontrol", [], t)); out.append(("tcontrol", [], gen.mutate(rng, t, NOISE)))
@@ -104,6 +112,8 @@ def inputs(chk):
 
 
 def run(chk):
+    from props import C10
+    C10.load_nested(chk)
     ins = inputs(chk)
     icases, mcases = [], []
     cl_texts = [t for op, _, t in ins if op in ("clparse", "clbufio")]
